@@ -246,7 +246,10 @@ func (a *Args) String() string {
 		}
 	}
 	if a.Elided {
-		v = append(v, "...")
+		// v may be a.Processed itself, which can have spare capacity: cap the
+		// slice so that append copies instead of writing into memory that is
+		// shared with every other user of the snapshot.
+		v = append(v[:len(v):len(v)], "...")
 	}
 	return strings.Join(v, ", ")
 }
